@@ -316,7 +316,36 @@ _ADDED4 = {
            "accumulated result (`r, err := F(acc, x)` puts r back into acc).",
     "C20": " (GC1) see C04: nothing computed by one generation of `--watch` answers the next.",
 }
-for _src in (_ADDED, _ADDED3, _ADDED4):
+# Clauses added after the fifth round of independently seeded changes.
+_ADDED5 = {
+    "C01": " (CW1) serializers.h WriteInteger/ReadInteger hand the varint routine a value of T's signedness and of the routine's width (T itself only where sizeof(T) is that width); "
+           "(CV1) a varint is assembled with the shift computed in the destination type; (SW1) no emitted C++ `case` of the binary/NDJSON/protocol generators falls through; "
+           "(PA1) registered here too.",
+    "C02": " (PT1) a sub-second remainder rendered into text by yardl_types.py is zero-padded to its full width.",
+    "C03": " (CW1, CV1, ZZ1) see C01; (PT1) see C02; (PN1) registered here too: a JSON null written by the C++ writer is a value, not a missing step; (DB1) an enum/flags without "
+           "`base:` is int32 in every back end.",
+    "C04": " (A2, converse) source positions, annotations and version bookkeeping stay out of the schema JSON; (VS1) a function that follows SimpleType.ResolvedDefinition keys no map by "
+           "the unqualified name of a definition; (ZF1) no `if` reads a field of a local struct that the literal creating it left unset and nothing has stored into since.",
+    "C05": " (SW1) see C01: the `case Version::x` of an added or changed step ends in break on every generator path; (B6) a plural read into a temporary vector is preceded by "
+           "`tmp.reserve(values.capacity())`.",
+    "C06": " (DF1) `if x == nil { y = default }` defaults the variable it tested.",
+    "C07": " (S3) the emitted Python `__exit__` calls a method whose emitted body compares the protocol state.",
+    "C08": " (LC1) an emitted C++ lambda with an empty capture list prints no model expression in its body; (CN1) see above.",
+    "C09": " (ST1) a store into a dsl.SymbolTable goes into a table created in the same function or uses a qualified key; (X13) the bounds an enum value is range-checked against, "
+           "evaluated per integer primitive, equal the arithmetic range of the primitive.",
+    "C10": " (KF1) every YAML decode into a struct rejects unknown keys; (NP1) extended to the evolution analyser.",
+    "C11": " (KF1) see C10; (EV2) registered here too: an incompatible change nested in a wrapper is still an error.",
+    "C12": " (W4) a file writer whose type removes files not listed in a field records the file on every path that returns success.",
+    "C13": " (Q7) ParseYamlInDir obtains its file list from a recursive traversal.",
+    "C14": " (DB1) see C03.",
+    "C15": " (VS1, ZF1) see C04.",
+    "C16": " (PE3, extended) also in _ndjson.py, and on every path through the handler.",
+    "C17": " (CP1) the address handed to ReadBytes/WriteBytes adds pointer and offset in the same unit; (CB3) registered here too; (B6) see C05.",
+    "C18": " (MK1) a memo map is written under the key expression it is looked up with.",
+    "C20": " (T8) the package directory is put under watch without waiting for a generation to complete; (T9) the function the debounce timer runs reaches generateImpl through "
+           "a top-level statement that no return precedes.",
+}
+for _src in (_ADDED, _ADDED3, _ADDED4, _ADDED5):
     for _k, _v in _src.items():
         if _k in PROPS:
             PROPS[_k]["explanation"] += _v
